@@ -222,7 +222,10 @@ class Grid(object):
         if (time is None):
             list_of_files = glob(
                 "{0}/{1}_*".format(foldername, nameConvention))
-            filename = max(list_of_files)
+            # choose the file with the largest time (the zero-padded names
+            # only sort correctly as strings while they have equal lengths)
+            filename = max(list_of_files, key=lambda f: float(
+                os.path.basename(f)[len(nameConvention)+1:-3]))
         else:
             filename = "{0}/{1}_{2:06}.h5".format(
                 foldername, nameConvention, time)
